@@ -1,0 +1,94 @@
+// Copyright The Prometheus Authors
+// Licensed under the Apache License, Version 2.0 (the "License");
+// you may not use this file except in compliance with the License.
+// You may obtain a copy of the License at
+//
+// http://www.apache.org/licenses/LICENSE-2.0
+//
+// Unless required by applicable law or agreed to in writing, software
+// distributed under the License is distributed on an "AS IS" BASIS,
+// WITHOUT WARRANTIES OR CONDITIONS OF ANY KIND, either express or implied.
+// See the License for the specific language governing permissions and
+// limitations under the License.
+
+//go:build verif
+
+package dispatch
+
+import (
+	"context"
+	"sync"
+
+	"github.com/prometheus/alertmanager/alert"
+	"github.com/prometheus/alertmanager/provider"
+)
+
+// Verification hooks, only compiled with the "verif" build tag. A harness can
+// register a callback per alert provider; the dispatcher calls it at a few
+// points that lie between critical sections, so that the harness can widen
+// scheduling windows (sleep, Gosched) or record the order of events.
+
+type verifYieldKey struct{}
+
+// VerifYieldFunc receives the name of the yield point and the alert being
+// processed (nil where there is none).
+type VerifYieldFunc func(point string, a *alert.Alert)
+
+var verifYieldFns sync.Map // provider.Alerts -> VerifYieldFunc
+
+// VerifSetYield registers (or, with nil, removes) the callback used by
+// dispatchers created afterwards on the given provider.
+func VerifSetYield(alerts provider.Alerts, fn VerifYieldFunc) {
+	if fn == nil {
+		verifYieldFns.Delete(alerts)
+		return
+	}
+	verifYieldFns.Store(alerts, fn)
+}
+
+func verifWithYield(ctx context.Context, alerts provider.Alerts) context.Context {
+	if fn, ok := verifYieldFns.Load(alerts); ok {
+		return context.WithValue(ctx, verifYieldKey{}, fn.(VerifYieldFunc))
+	}
+	return ctx
+}
+
+func verifYield(ctx context.Context, point string, a *alert.Alert) {
+	if fn, ok := ctx.Value(verifYieldKey{}).(VerifYieldFunc); ok {
+		fn(point, a)
+	}
+}
+
+// VerifGroup describes one entry of a route's group map.
+type VerifGroup struct {
+	RouteID   string
+	RouteIdx  int
+	GroupKey  string
+	Labels    string
+	Destroyed bool
+	Running   bool
+	Alerts    int
+}
+
+// VerifGroups returns every entry of the per-route group maps together with
+// the per-route and global group counters.
+func (d *Dispatcher) VerifGroups() (groups []VerifGroup, perRouteLen []int64, total int32) {
+	<-d.loaded
+	for i := range d.routeGroupsSlice {
+		perRouteLen = append(perRouteLen, d.routeGroupsSlice[i].groupsLen.Load())
+		d.routeGroupsSlice[i].groups.Range(func(_, el any) bool {
+			ag := el.(*aggrGroup)
+			groups = append(groups, VerifGroup{
+				RouteID:   ag.routeID,
+				RouteIdx:  i,
+				GroupKey:  ag.GroupKey(),
+				Labels:    ag.labels.String(),
+				Destroyed: ag.destroyed(),
+				Running:   ag.running.Load(),
+				Alerts:    ag.alerts.Len(),
+			})
+			return true
+		})
+	}
+	return groups, perRouteLen, d.aggrGroupsNum.Load()
+}
